@@ -11,8 +11,8 @@ TRACE_JAVA = "-Xss1g -Dtlc2.tool.queue.IStateQueue=StateDeque"
 
 def tier_params(tier):
     if tier == "thorough":
-        return dict(cfg="MC_MessageParse_thorough.cfg", trace_every=25, policies=2, tlc_timeout=3000, trace_max=80)
-    return dict(cfg="MC_MessageParse_quick.cfg", trace_every=4, policies=1, tlc_timeout=900, trace_max=60)
+        return dict(cfg="MC_MessageParse_thorough.cfg", trace_every=25, policies=4, tlc_timeout=3000, trace_max=80)
+    return dict(cfg="MC_MessageParse_quick.cfg", trace_every=4, policies=3, tlc_timeout=900, trace_max=60)
 
 
 def validate_traces(wd, traces_path, cfg="CursorTrace.cfg", module="CursorTrace.tla"):
@@ -56,7 +56,13 @@ def run_pipeline(prop, tier):
     log("[%s] TLC MessageParse: %d distinct states, %d behaviours, %.0fs" % (prop, mc["distinct"], n, mc["wall"]))
     out = os.path.join(wd, "msg_out.json")
     traces = os.path.join(wd, "traces.ndjson")
-    _, hw = run_harness(["msg", "--cases", cases, "--out", out, "--traces", traces,
+    # boundary-shaped field contents from the FieldFormats shape space (content policies >= 2)
+    ff = run_tlc("MC_FieldFormats.tla", "FieldFormats_quick.cfg", wd, timeout=1500)
+    tlc_require_clean(ff, "FieldFormats")
+    pool = os.path.join(wd, "field_pool.ndjson")
+    extract_json_lines(ff["out_path"], pool)
+    os.remove(ff["out_path"])
+    _, hw = run_harness(["msg", "--cases", cases, "--out", out, "--traces", traces, "--pool", pool,
                          "--trace-every", str(p["trace_every"]), "--policies", str(p["policies"]),
                          "--trace-max-toks", str(p["trace_max"])])
     summary = json.load(open(out))
